@@ -163,6 +163,14 @@ enum qb_ipcs_connection_state {
 	QB_IPCS_CONNECTION_SHUTTING_DOWN,
 };
 
+/* where the connection_closed() step of a shutdown is */
+enum qb_ipcs_closed_stage {
+	QB_IPCS_CLOSED_NOT_RUN,		/* not called yet, or to be called again */
+	QB_IPCS_CLOSED_RUNNING,		/* inside the callback */
+	QB_IPCS_CLOSED_RERUN_QUEUED,	/* returned non-zero, job queued */
+	QB_IPCS_CLOSED_DONE,		/* accepted, initial reference dropped */
+};
+
 #define CONNECTION_DESCRIPTION NAME_MAX
 
 struct qb_ipcs_connection_auth {
@@ -189,6 +197,7 @@ struct qb_ipcs_connection {
 	int32_t fc_enabled;
 	int32_t poll_events;
 	int32_t outstanding_notifiers;
+	enum qb_ipcs_closed_stage closed_stage;
 	char description[CONNECTION_DESCRIPTION];
 	struct qb_ipcs_connection_stats_2 stats;
 };
